@@ -212,7 +212,10 @@ LensR(p, pre, m, f, o, r) ==
   IN
   CASE p = "C01" ->
          \* "currently enabled" and "threshold" mean what the history of transactions established
-         /\ ~DontCare(m) => (o.post.attesters = r.post.attesters /\ o.post.threshold = r.post.threshold)
+         \* (a transaction the code refuses without effect establishes nothing: refusing more than the
+         \*  specification does breaks no property that says "only")
+         /\ ~DontCare(m) => \/ (o.post.attesters = r.post.attesters /\ o.post.threshold = r.post.threshold)
+                            \/ (res # "ok" /\ o.post = pre)
          /\ HasAtt(m) =>
               \* the verifier accepts exactly the quorum attestations; no handler accepts without one
               /\ (o.vas = "ok") <=> AttestDecl(pre.attesters, pre.threshold, m.att)
@@ -299,14 +302,18 @@ LensR(p, pre, m, f, o, r) ==
     [] p = "C08" ->
          (res = "ok") <=> DepositAccept(pre, m, Outcome(o.calls, "Transfer"), Outcome(o.calls, "Burn"))
     [] p = "C09" ->
-         /\ res = exp.res
+         /\ res = "ok" => exp.res = "ok"                                      \* "succeeds ONLY for ..."
          /\ o.post = pre                                                      \* moves nothing, stores nothing
          /\ both => SentMsgs(o.evs) = SentMsgs(exp.evs)
     [] p = "C10" -> res # "ok" /\ o.post = pre
-    [] p = "C11" -> /\ Roles(o.post) = Roles(r.post)
-                    \* ... and who the chain REPORTS as holders is who the lifecycle made holders
+    [] p = "C11" -> /\ \/ Roles(o.post) = Roles(r.post)
+                       \* the delegated roles change "only through the owner's update, only to valid addresses":
+                       \* an update refused without effect is within the property
+                       \/ /\ m.type \in {"UpdateAttesterManager", "UpdatePauser", "UpdateTokenController"}
+                          /\ res # "ok" /\ o.post = pre
+                    \* ... and who the chain REPORTS as holders is who holds the slots
                     /\ ("q" \in DOMAIN o /\ ~o.q.panic) =>
-                          <<o.q.owner, o.q.attMgr, o.q.pauser, o.q.tokCtl>> = <<r.post.owner, r.post.attMgr, r.post.pauser, r.post.tokCtl>>
+                          <<o.q.owner, o.q.attMgr, o.q.pauser, o.q.tokCtl>> = <<o.post.owner, o.post.attMgr, o.post.pauser, o.post.tokCtl>>
     [] p = "C12" ->
          /\ BlockedBy(pre, m) => res # "ok"
          /\ <<o.post.pausedBM, o.post.pausedSR>> = <<r.post.pausedBM, r.post.pausedSR>>
@@ -314,10 +321,11 @@ LensR(p, pre, m, f, o, r) ==
     [] p = "C13" ->
          /\ ThresholdOK(o.post)
          /\ (m.type \in AttMgrTypes /\ ~DontCare(m)) =>
-               (res = exp.res /\ o.post.attesters = r.post.attesters /\ o.post.threshold = r.post.threshold)
+               \/ (res = exp.res /\ o.post.attesters = r.post.attesters /\ o.post.threshold = r.post.threshold)
+               \/ (res # "ok" /\ o.post = pre)            \* refused without effect: the inequality is untouched
     [] p = "C14" /\ m.type = "Batch" ->
          LET silent == \E i \in DOMAIN m.msgs : DontCare(m.msgs[i]) IN     \* (a message the properties are silent about)
-         /\ ~silent => res = exp.res
+         /\ (~silent /\ res = "ok") => exp.res = "ok"              \* succeeds only if every message of it does
          /\ res # "ok" => (o.post = pre /\ o.evs = <<>>)          \* the first failing message discards everything
          /\ (res = "ok" /\ ~silent) => (o.post = r.post /\ o.evs = exp.evs /\ o.calls = exp.calls)
     [] p = "C14" ->
@@ -327,7 +335,7 @@ LensR(p, pre, m, f, o, r) ==
                /\ \A i \in DOMAIN o.calls : o.calls[i].ok
                /\ Len(SentMsgs(o.evs)) = 1
          /\ (res = "ok" /\ IsModuleRecv(m)) => Len(OkCalls(o.calls, "Mint")) = 1
-         /\ ((\E i \in DOMAIN f : ~f[i]) /\ ~DontCare(m)) => res = exp.res
+         /\ ((\E i \in DOMAIN f : ~f[i]) /\ ~DontCare(m) /\ res = "ok") => exp.res = "ok"   \* a failed dependency fails the transfer
     [] p = "C15" /\ m.type = "Simulate" -> o.post = pre /\ o.junk = {}
     [] p = "C15" ->
          /\ o.junk = {}
@@ -336,7 +344,9 @@ LensR(p, pre, m, f, o, r) ==
     [] p = "C19" ->
          \* registries are exact maps: adding, removing and setting behave as specified, and no transaction
          \* (whatever its own fate) leaves the registries in another shape than the specification says
-         /\ (m.type \in RegistryTypes /\ ~DontCare(m)) => res = exp.res
+         \* (a registry transaction refused without effect establishes nothing: the registries stay exactly
+         \*  those established by the SUCCESSFUL transactions)
+         /\ (m.type \in RegistryTypes /\ ~DontCare(m)) => (res = exp.res \/ (res # "ok" /\ o.post = pre))
          /\ (res = exp.res /\ ~DontCare(m)) =>
               <<o.post.attesters, o.post.limits, o.post.pairs, o.post.msgrs, o.post.used>>
                 = <<r.post.attesters, r.post.limits, r.post.pairs, r.post.msgrs, r.post.used>>
